@@ -240,7 +240,7 @@ def run(cx):
 
     with cx.ob("C01.8", "R-SHAPE", "raw wire headers carry no extensions / PeerId; decoded headers start with default (empty) extensions") as ob:
         from . import c07
-        sub = cx.__class__("C01", prog, cx.tier, cx.config, cx.tree)
+        sub = cx.__class__("C01", prog, cx.tier, cx.config, cx.tree, repo=cx.repo)
         c07.run(sub)
         w = [x for x in sub.obs if x.oid == "C07.4"]
         ob.count(w[0].evals if w else 0)
